@@ -215,13 +215,21 @@ def move_splitsliceread_to_consumer(op, cons_op):
     assert op.type == Op.SplitSliceRead
 
     if cons_op.ifm == op.ofm:
-        cons_op.read_offsets[0] = op.read_offsets[0]
-        cons_op.read_shapes[0] = op.read_shapes[0]
+        if cons_op.read_offsets[0] is None:
+            cons_op.read_offsets[0] = op.read_offsets[0]
+            cons_op.read_shapes[0] = op.read_shapes[0]
+        else:
+            # The consumer already reads a part of op.ofm (chained split/slice), keep its read shape and
+            # make its offset relative to op.ifm
+            cons_op.read_offsets[0] = op.read_offsets[0] + cons_op.read_offsets[0]
         cons_op.set_input_tensor(op.ifm, cons_op.type.info.indices.ifms[0])
         cons_op.ifm_shapes[0] = op.ifm_shapes[0]
     elif cons_op.type.is_binary_elementwise_op() and cons_op.ifm2 == op.ofm:
-        cons_op.read_offsets[1] = op.read_offsets[0]
-        cons_op.read_shapes[1] = op.read_shapes[0]
+        if cons_op.read_offsets[1] is None:
+            cons_op.read_offsets[1] = op.read_offsets[0]
+            cons_op.read_shapes[1] = op.read_shapes[0]
+        else:
+            cons_op.read_offsets[1] = op.read_offsets[0] + cons_op.read_offsets[1]
         cons_op.set_input_tensor(op.ifm, cons_op.type.info.indices.ifms[1])
         cons_op.ifm_shapes[1] = op.ifm_shapes[0]
     op.ofm.consumer_list.remove(cons_op)
